@@ -993,6 +993,9 @@ func (fv *FuncVC) unop(x *ssa.UnOp) {
 			fv.defReg(x, fv.readAddr(a, fv.st))
 		}
 		fv.assume(fv.wfVal(fv.val(x), x.Type(), fv.curAlloc(), 0))
+		if f := fv.constArrFact(x); f != "" {
+			fv.assume(f)
+		}
 		// the heap at entry is closed: what is stored in memory allocated before the call refers only to memory
 		// allocated before the call (reads from a heap that still is the entry version)
 		if a.heap != "" && strings.HasSuffix(string(fv.heapGet(fv.st, a.heap)), "@0") {
@@ -1117,7 +1120,11 @@ func (fv *FuncVC) binop(op token.Token, X, Y ssa.Value, rt types.Type, pos token
 				}
 			}
 		}
-		return fv.e.bitop(op.String(), a, b)
+		suffix := ""
+		if bt, ok := t.Underlying().(*types.Basic); ok && op == token.SHL {
+			suffix = bt.Name()
+		}
+		return fv.e.bitopT(op.String(), a, b, suffix)
 	}
 	fv.unsupp("binary %s", op)
 	return fv.e.fresh("unk", fv.e.sortOf(rt))
